@@ -212,7 +212,7 @@ theorem fit_joint_optimal_centred_partial (contig : Bool) (C : List (List α)) (
     objective C y w (computeIntercept true y (y.length : α)).1 l1r pen n - objective C y w' b' l1r pen n
       ≤ dualityGap contig C (computeIntercept true y (y.length : α)).2 w
           (residual C (computeIntercept true y (y.length : α)).2 w 0) l1r pen n := by
-  simp only [computeIntercept, if_true, sumS_eq] at *
+  simp only [computeIntercept, if_true, sumS_eq, sumU_eq] at *
   set m := y.sum / (y.length : α) with hm
   set yc := y.map (· - m) with hyc
   have hycl : yc.length = y.length := by simp [hyc]
